@@ -311,4 +311,33 @@ def chunksOf : List Pat → List Chunk
   | p :: ps => chunkOf p :: chunksOf ps
 end
 
+/-! ### aliases -/
+
+mutual
+/-- the same pattern with every formatter written in its short form -/
+def unalias : Pat → Pat
+  | .lit l => .lit l
+  | .leaf k _ spec => .leaf k false spec
+  | .date _ args spec => .date false args spec
+  | .mdc _ key dflt spec => .mdc false key dflt spec
+  | .group k _ body spec => .group k false (unaliasL body) spec
+def unaliasL : List Pat → List Pat
+  | [] => []
+  | p :: ps => unalias p :: unaliasL ps
+end
+
+mutual
+/-- does a highlight group occur (at any depth)? -/
+def hasHighlight : Pat → Bool
+  | .group k _ body _ => k == .highlight || hasHighlightL body
+  | _ => false
+def hasHighlightL : List Pat → Bool
+  | [] => false
+  | p :: ps => hasHighlight p || hasHighlightL ps
+end
+
+/-- chrono accepts every date format the pattern renders in this build profile -/
+def DatesOk (env : Env) (ps : List Pat) : Prop :=
+  ∀ x ∈ datesPats env ps, env.strftimeOk x.1 x.2 = true
+
 end Log4rs.Pattern.Parse
